@@ -5,9 +5,9 @@
 //@ assumes: script and data are prefixes (symbolic length 0..=8) of fixed 8-byte buffers: only their lengths are read by the kernel
 //@ decides: C22: a limit flag is raised iff the size is strictly larger than its limit; hard mode rejects iff some flag is raised, with the error of the first exceeded limit carrying the actual size and the limit; sizes at or below a limit never trigger it
 //@ outside: the per-call-result limit (inside make_exec_ctx, which ends by building an ExecutionCtx), the routing of the error to "previous data returned" (runner.rs), soft mode behaving otherwise as an unlimited run
-//@ harness: name=c22_limits_exact props=C22 cap=600 cost=90 sym="air_size_limit, particle_size_limit, call_result_size_limit: any u64; hard_limit_enabled: any bool; air.len(), data.len(): 0..=8" bound="lengths 0..=8 against arbitrary 64-bit limits"
-//@ harness: name=c22_handle_limit_exceeding props=C22 cap=300 cost=10 sym="hard_limit_enabled any bool; initial flag any bool" bound="none (loop-free)"
-//@ harness: name=c22_limits_vacuity props=C22 expect=fail cap=600 cost=90 sym="as c22_limits_exact" bound="same"
+//@ harness: name=c22_limits_exact playback=1 props=C22 cap=600 cost=90 sym="air_size_limit, particle_size_limit, call_result_size_limit: any u64; hard_limit_enabled: any bool; air.len(), data.len(): 0..=8" bound="lengths 0..=8 against arbitrary 64-bit limits"
+//@ harness: name=c22_handle_limit_exceeding playback=1 props=C22 cap=300 cost=10 sym="hard_limit_enabled any bool; initial flag any bool" bound="none (loop-free)"
+//@ harness: name=c22_limits_vacuity playback=1 props=C22 expect=fail cap=600 cost=90 sym="as c22_limits_exact" bound="same"
 
 use super::*;
 use crate::preparation_step::errors::SizeLimitsExceded;
